@@ -1,7 +1,7 @@
 """Failing-input search for C08 on the real code: counting Bloom lower bound / add-remove undo /
 absent remove; counting cuckoo exact counts through evictions and expansions (scripted oracle)."""
 import core
-from search.common import drive, shrink_ops
+from search.common import drive, keys_pool, shrink_ops
 from search.cuckoo_common import all_scripts, fingerprint, gen_case, shrink_case, walk
 
 U32 = 2**32 - 1
@@ -10,6 +10,8 @@ U32 = 2**32 - 1
 def gen_cbf(rng):
     est, fpr = rng.choice([(1, 0.5), (1, 0.3), (2, 0.3), (3, 0.1), (5, 0.05), (20, 0.01)])
     keys = ["k%d" % i for i in range(rng.randint(1, 8))]
+    if rng.random() < 0.3:
+        keys = [k for k in keys_pool(rng, len(keys) + 2) if isinstance(k, str)] or keys
     ops = [(rng.choice(["add", "add", "rem", "undo", "absent"]), rng.choice(keys), rng.choice([1, 1, 2, 3, 9])) for _ in range(rng.randint(1, 30))]
     # a user-supplied strategy may return any Python ints (negative ones included): position = hash mod size
     signed = rng.random() < 0.3
